@@ -196,7 +196,7 @@ pub fn gen_c16(rng: &mut Rng, thorough: bool) -> Vec<Tagged> {
             }
         }
         spec.weights = Some(ws);
-        spec.skipacc = ALL_ACCS[r % 5];
+        spec.skipacc = *rng.pick(&ALL_ACCS);
         // one to three connections with distinct targets; sources may or may not be distinct
         let nc = rng.range(1, 3.min(depth - 1).max(1));
         let mut targets: Vec<usize> = (1..depth).collect();
@@ -294,7 +294,7 @@ pub fn gen_c17(rng: &mut Rng, thorough: bool) -> Vec<Tagged> {
         let _ = pool_at;
         let nlayers = spec.layers.len();
         spec.weights = Some(ws);
-        spec.loopacc = ALL_ACCS[r % 5];
+        spec.loopacc = *rng.pick(&ALL_ACCS);
         // the loop range: within the shape-preserving part
         let last_loopable = if r % 3 == 2 { nlayers - 2 } else { nlayers - 1 };
         let b = rng.range(0, last_loopable);
